@@ -228,6 +228,13 @@ def _dict_lookup(d, k):
     if k.lo == k.hi:
         return d[k.lo]
     keys = [x for x in d.keys() if _isinstance(x, _int) and not _isinstance(x, bool) and k.lo <= x <= k.hi]
+    if e.abstract_dicts and _len(keys) > 16 and all(_isinstance(d[x], str) for x in keys):
+        # big text table: fork on hit / miss only; a hit yields an opaque string (over-approximation
+        # that is exact for everything except the text itself)
+        hit = z3.Or(*[k.t == z3.BitVecVal(x, k.w) for x in keys])
+        if e._kary([hit, z3.Not(hit)]) == 1:
+            raise KeyError(k)
+        return OpaqueStr()
     conds = [k.t == z3.BitVecVal(x, k.w) for x in keys]
     conds.append(z3.And(*[z3.Not(c) for c in conds]) if conds else z3.BoolVal(True))
     i = e._kary(conds)
